@@ -947,7 +947,43 @@ def provenance(path, hist):
     return origin, renamed_undrained, chain
 
 
+STALE_CLASS = ("a directory that was moved out of the tree keeps its watch and map entry; an entry that re-uses its old "
+               "name is confused with it")
+
+
+def _touches_stale_name(path, hist):
+    """Does the directory's provenance chain pass through a name that a moved-out directory held before?"""
+    ops = [op for op, _ in hist]
+    # names held by directories at the moment they were moved out (kind from a replay of the model is not needed:
+    # a moved-out file has no watch, and a file never appears in a directory's provenance chain)
+    p = path
+    names = {p}
+    first = 0
+    for i in range(len(ops) - 1, -1, -1):
+        op = ops[i]
+        if op[0] == "rename" and (p == op[2] or inside(p, op[2])):
+            p = op[1] + p[len(op[2]):]
+            names.add(p)
+        elif op[0] == "move_back" and (p == op[2] or inside(p, op[2])):
+            names.add(p)
+            first = i
+            break
+        elif op[0] in ("mkdir", "makedirs", "mktree", "move_in_dir") and (p == op[1] or inside(p, op[1]) or p == parent(op[1])):
+            first = i
+            break
+    for i, op in enumerate(ops):
+        if op[0] == "move_out" and i < len(ops):
+            out = op[1]
+            if any(n == out or inside(n, out) or inside(out, n) for n in names) and i <= max(first, 0) + len(ops):
+                # the move-out must precede the last operation of the chain
+                if i < len(ops) - 1:
+                    return True
+    return False
+
+
 def classify_dir(path, hist):
+    if any(op[0] == "move_out" for op, _ in hist) and _touches_stale_name(path, hist):
+        return STALE_CLASS
     origin, undrained, chain = provenance(path, hist)
     if origin == "move_in_dir":
         if undrained:
